@@ -117,7 +117,10 @@ def run(ctx):
     res.rule = ("sequences of 1..12 well-formed frames (own, broadcast, foreign recipient, unknown sender, unknown kind, "
                 "checksum byte = 0x68, payloads salted with delimiter and header-shaped bytes, boundary sizes) x 5-6 chunkings "
                 "(all up front, 1-byte lazy, random lazy, frame boundaries lazy, cuts inside bodies lazy); lazy = next chunk fed "
-                "only when the reader is blocked. distinct = distinct byte streams; non-trivial = >= 2 frames incl. one not for us")
+                "only when the reader is blocked; plus ARRIVAL SCHEDULES (random cuts around delimiters / header ends, empty chunks, chunks already "
+                "there before a call or arriving one at a time while it is suspended) with the implementation observed at every suspension "
+                "(state, bytes buffered, bytes demanded) against the resumable machine of Model/ReaderChunks; and ARBITRARY INTERLEAVINGS (moves: a chunk / the end arrives, the reader runs; "
+                "any order, bursts, spurious runs, schedules cut short) against the small-step system of Model/ReaderSched. distinct = distinct byte streams; non-trivial = >= 2 frames incl. one not for us")
     cases = []
     for fn, ln in load_corpus("C04"):
         cases.append(("corpus:" + fn, [bytes.fromhex(x) for x in ln.split()]))
@@ -138,11 +141,39 @@ def run(ctx):
             res.sample(dict(frames=[f.hex() for f in frames], expected=[list(o) for o in expected_by_statement(frames)]))
     import c09_wire  # the protocol-level part: the same kind of sequences through a real AsyncProtocol, observed at the device
     c09_wire.run_section(res, rng, tier, "C04")
+    # arrival schedules: the same sequences cut at random places (preferably around delimiters and header ends, empty chunks
+    # included), chunks arriving before a call starts or only when it is suspended; the implementation is observed at every
+    # suspension and compared with the resumable machine of Model/ReaderChunks (C04.chunk_independent: equal to the reader
+    # model on the concatenation for ALL chunkings and schedules)
+    import chunks
+    from common import Parts
+    parts = Parts(res)
+    sub = [(label, b"".join(fr)) for label, fr in cases if len(b"".join(fr)) <= 1500][:(260 if tier == "quick" else 6000)]
+    parts.run("arrival schedules vs the resumable reader machine", chunks.evaluate, res, sub, random.Random(ctx["seed"] * 104729 + 41))
+    # ANY order of arrivals and reader runs (arrivals while the reader is not waiting, several in a row, runs with nothing new,
+    # schedules cut short): Model/ReaderSched, C04.every_interleaving_prefix / every_interleaving_complete
+    parts.run("arbitrary interleavings of arrival and reader progress", chunks.evaluate_moves, res, sub[:(200 if tier == "quick" else 4000)],
+              random.Random(ctx["seed"] * 104729 + 43))
+    parts.finish()
     return res
 
 
 def replay(ctx):
     f = ctx["replay"].get("failure") or ctx["replay"].get("first_difference")
+    if f["input"].get("via") == "moves":
+        import chunks
+        res = Result("C04")
+        res.rule = "replay of one recorded interleaving of arrivals and reader runs"
+        chunks.replay_moves(res, f["input"])
+        res.case(str(f["input"]["chunks"]) + f["input"]["moves"])
+        return res
+    if f["input"].get("via") == "chunks":
+        import chunks
+        res = Result("C04")
+        res.rule = "replay of one recorded arrival schedule"
+        chunks.replay_case(res, f["input"])
+        res.case(str(f["input"]["chunks"]))
+        return res
     frames = [bytes.fromhex(x) for x in f["input"]["frames"]]
     res = Result("C04")
     if f["input"].get("via") == "wire":
